@@ -41,7 +41,7 @@ CHECKS = {
         design='6 C03'),
     'C04': dict(
         text='Everything in operation.py runs on symbolic complex tensors; vdot, norm, operator averages, traces, and the projection identity '
-             '<B|H_loc A> = <Psi(B)|H|Psi(A)> for every site, two-site and zero-site variant are decided as polynomial identities by SMT (L<=3, D<=2, '
+             '<B|H_loc A> = <Psi(B)|H|Psi(A)> for every site, two-site and zero-site variant are decided as polynomial identities by SMT (L<=3, D<=2; thorough: local applications at L=4, d=3, D=3; '
              'bra/ket/operator profiles independent). Entries universally quantified => every block-sparse instance covered.',
         note='Trusts sqrt contract for norm(), z3, engine. Hermiticity premise imposed structurally on the MPO tensors. Outside: L>3, D>2, d>2, rounding.',
         design='6 C04'),
@@ -54,8 +54,8 @@ CHECKS = {
              'Outside: L>3 (4 thorough), >3 chains, operator maps other than 2x2 real.',
         design='6 C05'),
     'C06': dict(
-        text='All six public lattice-Hamiltonian constructors run end to end with symbolic real (complex) parameters for L=1..4 (d=2), 1..3 (spin-1, Bose d<=3, '
-             'Fermi-Hubbard); every zero/non-zero coupling pattern is a path; dense matrix vs textbook formula, Hermiticity and charge conservation are decided '
+        text='All six public lattice-Hamiltonian constructors run end to end with symbolic real (complex) parameters for L=1..8 (Ising, XXZ, fermionic combinations; 10 thorough), spin-1 L<=5 (6), Bose d<=5 / L<=6 (d=6, L=8), '
+             'Fermi-Hubbard L<=4 (5); every zero/non-zero coupling pattern is a path; dense matrix vs textbook formula, Hermiticity and charge conservation are decided '
              'for all parameter values by SMT.',
         note='Trusts the textbook oracle refs/models.py (written from docstrings, validated numerically against the unchanged tree each run), z3, engine. '
              'Irrational local operators enter as the IEEE doubles the code uses. Outside: larger L/d.',
@@ -73,7 +73,7 @@ CHECKS = {
              'contract; spectrum order across blocks and every truncation outcome (incl. tolerance equal to a cumulative weight) are paths; proved per path by SMT: '
              'truncation rule on the normalised weights (bound, ordering, maximality, positivity), isometry, sparsity, error identity, exactness at tol=0, zero matrix, non-mutation.',
         note='Trusts the SVD/sqrt/inverse contracts (validated numerically), z3, engine. Kept/discarded comparisons are stated on the normalised weights with the linking '
-             'identities t_i w^2 = s_i^2 (meta-argument documented in the evidence). Outside: shapes > 3x3 (2x3 quick), rounding.',
+             'identities t_i w^2 = s_i^2 (meta-argument documented in the evidence). Outside: shapes > 3x3 (2x3 quick), more than 5 values in retained_bond_indices (3 quick), rounding.',
         design='6 C12'),
     'C13': dict(
         text='PARTIAL. MPS.compress runs symbolically (QR + SVD contracts, symbolic tolerance): block sparsity, canonical form, non-growing bonds, C12 truncation rule at the '
@@ -84,7 +84,7 @@ CHECKS = {
         design='6 C13'),
     'C14': dict(
         text='PARTIAL. lanczos_iteration / arnoldi_iteration run in exact arithmetic on symbolic maps and start vectors; every breakdown position is a path. '
-             'Output-size consistency is checked on every termination path for n<=3, numiter<=4 (incl. numiter>n) and through eigh_krylov/expm_krylov; '
+             'Output-size consistency is checked on every termination path for n<=3, numiter<=4 (thorough n=4, numiter<=5; incl. numiter>n) and through eigh_krylov/expm_krylov; '
              'for numiter<=2: V^H V=I, V^H A V = T/H, positive off-diagonals, Hessenberg structure are proved by SMT.',
         note='Trusts sqrt/inverse stubs, z3, engine. Outside: relations beyond two vectors, floating-point loss of orthogonality, meaning of the breakdown threshold.',
         design='6 C14'),
@@ -98,11 +98,11 @@ CHECKS = {
         text='from_optrees and from_automaton run over tree / automaton skeletons generated inside the exploration with symbolic coefficients, node charges, '
              'site-dependent active/opics callables; result graphs vs sum over root-to-leaf paths resp. DP over automaton paths; as_matrix of chains, trees, graphs '
              'vs word semantics under a symbolic operator map; all decided by SMT per path.',
-        note='Trusts z3, engine, oracles. Tree nodes coinciding with terminal nodes carry charge 0 (else RuntimeError by design). Outside: larger trees/automata/L.',
+        note='Trusts z3, engine, oracles. Tree nodes coinciding with terminal nodes carry charge 0 (else RuntimeError by design). Outside: larger trees/automata/L (trees: L<=5 quick, 6 thorough with small trees; automata L<=3, 4 thorough).',
         design='6 C17'),
     'C18': dict(
         category='exploration',
-        text='Exhaustive within bound: every bipartite graph up to 4x4 (all edge sets) and every ordered edge list with duplicates up to length 4 over 3x3 is a path; '
+        text='Exhaustive within bound: every bipartite graph up to 4x4 (thorough: 4x5 and 5x4, 2.3e6 graphs) and every ordered edge list with duplicates up to length 4 (5) over 3x3 is a path; '
              'the Koenig certificate (valid matching, valid cover, |cover|=|matching|) is checked on each. The solver only decides the 0/1 adjacency branches.',
         note='Symbolic execution degenerates to enumeration here (every input bit is branched on); stated as exploration. Outside: 5x5 exhaustive, random 60x60 sampling.',
         design='6 C18',
